@@ -493,7 +493,7 @@ pub fn build_raw(lang: &Lang, events: &[Ev], crlf: bool) -> Built {
                         };
                     // newline-terminated statements: never two statements on one line
                     let one_stmt_per_line = matches!(lang.id, "go" | "swift" | "kotlin");
-                    let trail = place.trail && form == Form::Block && has_inline && !(lead && one_stmt_per_line);
+                    let trail = place.trail && ((form == Form::Block && has_inline && !(lead && one_stmt_per_line)) || form == Form::MdHtml);
                     segs.push(Seg::Comment(CommentSeg { form, indent: (place.indent % 9) as usize, lead, trail, star: place.star && lang.star, doc: place.doc && (lang.star || lang.markdown), container: place.container % 5, parts: part_for(form) }));
                 }
                 prev_was_tag = true;
@@ -560,12 +560,21 @@ pub fn build_raw(lang: &Lang, events: &[Ev], crlf: bool) -> Built {
                     _ => false,
                 });
                 let md_form = matches!(c.form, Form::MdRef(_) | Form::MdHtml);
-                let ind = if md_form && c.container != 0 && one_line {
-                    // a one-line Markdown comment inside a block quote / list item
+                // Ruby's `=begin` / `=end` comments: both delimiters alone at the very start of their own lines
+                let own_lines = c.form == Form::Block && lang.block.is_some_and(|(o, _)| o == "=begin");
+                // a Markdown comment inside a block quote / list item: marker on the first line, the
+                // container's continuation prefix on the following ones
+                // (multi-line comments only in list items: a block quote's `>` continuation markers would
+                // become part of the comment's raw text, where a `>` ends a tag)
+                let in_container = md_form && c.container != 0 && (one_line || (c.form == Form::MdHtml && matches!(c.container, 2 | 3)));
+                let ind = if own_lines {
+                    String::new()
+                } else if in_container {
                     ["", "> ", "- ", "1. ", "> - "][c.container as usize].to_string()
                 } else {
                     " ".repeat(if md_form { c.indent % 4 } else if c.lead { 0 } else { c.indent })
                 };
+                let cont_ind = if in_container { ["", "> ", "  ", "   ", ">   "][c.container as usize].to_string() } else { ind.clone() };
                 if lang.markdown && !out.ends_with(&format!("{nl}{nl}")) {
                     out.push_str(nl);
                 }
@@ -589,7 +598,7 @@ pub fn build_raw(lang: &Lang, events: &[Ev], crlf: bool) -> Built {
                     // `doc` on a Markdown definition: the title sits on the line after the destination
                     Form::MdRef(k) => {
                         let (o, cl) = [("(", ")"), ("\"", "\""), ("'", "'")][k.min(2) as usize];
-                        let split_title = c.doc && (c.container == 0 || !one_line);
+                        let split_title = c.doc && !in_container;
                         (if split_title { format!("[//]: #{nl}{ind}  {o}") } else { format!("[//]: # {o}") }, cl.to_string())
                     }
                     Form::MdHtml => ("<!--".into(), "-->".into()),
@@ -598,10 +607,12 @@ pub fn build_raw(lang: &Lang, events: &[Ev], crlf: bool) -> Built {
                 let idx = comments.len();
                 let mut had_nl = false;
                 let md_ref = matches!(c.form, Form::MdRef(_));
-                if !md_ref {
+                if own_lines {
+                    out.push_str(nl);
+                } else if !md_ref {
                     out.push(' ');
                 }
-                let cont = format!("{nl}{ind}{}", if c.star { " * " } else { "   " });
+                let cont = if own_lines { nl.to_string() } else { format!("{nl}{cont_ind}{}", if c.star { " * " } else { "   " }) };
                 let mut first = true;
                 for p in &c.parts {
                     match p {
@@ -645,7 +656,9 @@ pub fn build_raw(lang: &Lang, events: &[Ev], crlf: bool) -> Built {
                     }
                 }
                 if !close.is_empty() {
-                    if !md_ref {
+                    if own_lines {
+                        out.push_str(nl);
+                    } else if !md_ref {
                         out.push(' ');
                     }
                     out.push_str(&close);
@@ -657,13 +670,19 @@ pub fn build_raw(lang: &Lang, events: &[Ev], crlf: bool) -> Built {
                 let lenient = match c.form {
                     Form::Line(i) => lang.line_comment_eats_newline.contains(&lang.line[i]),
                     Form::MdRef(_) => true,
+                    Form::Block => own_lines,
                     _ => false,
                 };
                 comments.push(CommentRec { start: cstart, end: cend, lenient, lenient_indent: matches!(c.form, Form::MdRef(_)) });
                 if c.trail {
                     counter += 1;
                     out.push(' ');
-                    out.push_str(&fill(lang.inline_code[counter % lang.inline_code.len()], counter));
+                    if c.form == Form::MdHtml {
+                        // text on the closing line of an HTML comment block: content that starts on the tag's line
+                        out.push_str(&format!("tail{counter} text"));
+                    } else {
+                        out.push_str(&fill(lang.inline_code[counter % lang.inline_code.len()], counter));
+                    }
                 }
                 out.push_str(nl);
                 if lang.markdown {
